@@ -162,6 +162,25 @@ static void randomCase(Rng &R, bool prio, unsigned n, unsigned P, int len) {
   }
 }
 
+
+// directed: rings larger than 256 slots (8-bit index slips), every kind of add through the slots 254..258 and the last slot,
+// once with the tail at slot 0 and once with the tail elsewhere
+static void bigRingCase(Rng &R, bool prio, unsigned n, unsigned P, unsigned tailShift) {
+  char b[96];
+  if (prio) snprintf(b, sizeof b, "pnew %u %u", n, P); else snprintf(b, sizeof b, "new %u", n);
+  exec(b);
+  unsigned effP = P < 1 ? 1 : (P == 255 ? 254 : P);
+  auto add = [&](bool byRef) { snprintf(b, sizeof b, "%s %u %u", byRef ? "addref" : "add", nextVal++, (unsigned)R.below(effP)); exec(b); };
+  auto rd = [&]() { if (!prio) exec(R.chance(1, 2) ? "readref" : "read"); else exec(R.chance(1, 2) ? "readany" : "read"); };
+  for (unsigned i = 0; i < tailShift; i++) { add(i & 1); rd(); }            // move head and tail together
+  for (unsigned round = 0; round < 2; round++) {
+    for (unsigned i = 0; i < n + 3; i++) { add(round == 0 ? true : R.chance(1, 2)); if (i % 97 == 0) exec("count"); }   // fill to full (+3 refused)
+    exec("count");
+    for (unsigned i = 0; i < n + 2; i++) rd();                                 // drain to empty (+ reads on empty)
+    exec("empty");
+  }
+}
+
 // exhaustive: all sequences over `alphabet` of length exactly L (prefixes are covered as prefixes)
 static void exhaustive(bool prio, unsigned n, unsigned P, const std::vector<std::string> &alphabet, int L) {
   std::vector<int> idx(L, 0);
@@ -190,6 +209,9 @@ int main(int argc, char **argv) {
   // fixed corner cases first (sizes below the minimum, priority-count clamps, out-of-range priorities)
   for (unsigned n : {0u, 1u, 2u, 3u}) { randomCase(R, false, n, 1, 30); }
   for (unsigned P : {0u, 1u, 2u, 254u, 255u}) randomCase(R, true, (unsigned)R.range(0, 6), P, 60);
+  for (unsigned n : {255u, 256u, 257u, 258u, 300u, 512u, 513u}) for (unsigned sh : {0u, 5u}) { bigRingCase(R, false, n, 1, sh); bigRingCase(R, true, n, (unsigned)R.range(1, 4), sh); }
+  if (C.thorough) for (unsigned n : {1000u, 4097u}) { bigRingCase(R, false, n, 1, 7); bigRingCase(R, true, n, 3, 7); }
+  C.sample("directed: rings of 255..513 (thorough: up to 4097) slots filled by reference through the 8-bit index boundary, drained, twice");
   int ncases = C.thorough ? 3000 : 300;
   for (int i = 0; i < ncases; i++) {
     bool prio = R.chance(3, 4);
